@@ -6,20 +6,35 @@ RULES = ["lowercase", "UPPERCASE", "PascalCase", "camelCase", "snake_case", "SCR
          "kebab-case", "SCREAMING-KEBAB-CASE"]
 UNKNOWN = ["Camel_Snake", "lower-case", ""]
 REPS = ["a", "B", "1", "_", "é", "É"]
+# UpperCamelCase names without an ASCII lower-case letter (the repaired class ascii-allcaps-test-on-unicode-names) ...
+ALLCAPS_REPAIRED_IDENTS = ["ΑλφαΒήτα", "ΟδόςA", "ÖßÉé", "ЖукМир", "BéB", "ÉéB"]
+# ... and names that really are all capitals (no lower-case letter of any script: the open class allcaps-special-case)
+ALLCAPS_OPEN_IDENTS = ["ΟΔΟΣ", "ÉB"]
 DICTIONARY = ["foo_bar", "FooBar", "Hello", "Number1", "AddressLine1", "URL", "TOTP", "id", "ID", "user_id", "userID",
               "HTTPServer", "x", "X", "a1", "A1", "a_1", "_private", "__", "_", "type", "r#type", "fooBAR", "Foo_Bar",
               "foo__bar", "trailing_", "IOError", "i32", "Vec2D", "snake_case_name", "SCREAMING_SNAKE", "kebab",
               "éclair", "Éclair", "straße", "ǅ", "naïve_field", "MyÉnum", "A", "Z42", "VeryTasty", "outcome",
               "very_tasty", "a", "z42", "B2B", "eTag", "iOS", "macOS", "x86_64", "OK", "Ok", "NaN"] + \
-             [chr(i) for i in range(1, 128)] + ["x" + chr(i) + "Y" for i in range(33, 127)]
+             [chr(i) for i in range(1, 128)] + ["x" + chr(i) + "Y" for i in range(33, 127)] + \
+             [w for w in ALLCAPS_REPAIRED_IDENTS + ALLCAPS_OPEN_IDENTS if not set(w) <= set("aB1_éÉ")]
 
 FIELD_CONV = re.compile(r"^[a-z0-9_]+$")
 
 
-def upper_camel(s):
-    if not re.fullmatch(r"[A-Z][A-Za-z0-9]*", s):
+def upper_camel(s, facts=None):
+    """the variant identifiers the property quantifies over: UpperCamelCase - a capital, then letters and digits, not all
+    capitals (a lower-case letter somewhere, or nothing but digits after the capital).  ASCII by the regular expressions; with
+    `facts` (rows of `unicode_table`: char::is_uppercase / is_lowercase of Rust std, by character) also over other scripts:
+    `Éé`, `BéB`, `ΑλφαΒήτα` are UpperCamelCase, `ÉB`, `ΟΔΟΣ` are all capitals (class `allcaps-special-case`).  "All capitals"
+    is typeshare's own test since the fix 8f4a2d5: no character with char::is_lowercase."""
+    if re.fullmatch(r"[A-Z][A-Za-z0-9]*", s):
+        return bool(re.search(r"[a-z]", s)) or bool(re.fullmatch(r"[A-Z][0-9]*", s))
+    if facts is None or not s or not all(ch.isalnum() for ch in s) or any(ord(ch) > 127 and ch not in facts for ch in s):
         return False
-    return bool(re.search(r"[a-z]", s)) or bool(re.fullmatch(r"[A-Z][0-9]*", s))
+    upper = lambda ch: "A" <= ch <= "Z" if ord(ch) < 128 else bool(facts[ch][1])
+    if not upper(s[0]):
+        return False
+    return not rust_all_uppercase(s, facts) or not any(upper(ch) for ch in s[1:])
 
 
 def norm(a, who):
@@ -62,6 +77,7 @@ def run(check):
             rreq.append({"op": "renameext", "f": f, "s": s_})
             meta.append(("ext", f, s_))
     mans, rans = model(mreq), runner(rreq)
+    facts = {r[0]: r for r in unicode_table({ch for s_ in allstrs + ALLCAPS_REPAIRED_IDENTS + ALLCAPS_OPEN_IDENTS for ch in s_ if ord(ch) > 127})}
     impl_ts, impl_serde, model_ts, model_serde = {}, {}, {}, {}
     mismatches = []
     for (kind, rule, s_), ma, ra, rq in zip(meta, mans, rans, rreq):
@@ -89,7 +105,7 @@ def run(check):
                 if got != {"ok": s_}:
                     out.append(("unknown-rule", rule, s_, got, {"ok": s_}))
                 continue
-            for pos, scope in (("field", FIELD_CONV.match(s_)), ("variant", upper_camel(s_))):
+            for pos, scope in (("field", FIELD_CONV.match(s_)), ("variant", upper_camel(s_, facts))):
                 want = impl_serde[(pos, rule, s_)]
                 if "panic" in want:
                     continue        # serde_derive itself fails (compile error in the user's crate): nothing to agree with
@@ -112,21 +128,29 @@ def run(check):
                             broken="correspondence %s (theorems TsV.C16.*)" % kind)
 
     # --- known findings: stored witnesses, replayed on the implementation
+    # (the class allcaps-special-case = names without a lower-case letter of any script: `URL`, and `ΟΔΟΣ` as well)
     witnesses = {
-        "allcaps-special-case": ("variant", "camelCase", "URL"),
-        "snake-splits-fields": ("field", "snake_case", "fooBar"),
-        "pascal-on-variant-with-underscore": ("variant", "PascalCase", "Foo_Bar"),
+        "allcaps-special-case": [("variant", "camelCase", "URL")] + [("variant", "snake_case", w) for w in ALLCAPS_OPEN_IDENTS],
+        "snake-splits-fields": [("field", "snake_case", "fooBar")],
+        "pascal-on-variant-with-underscore": [("variant", "PascalCase", "Foo_Bar")],
     }
-    for kid, (pos, rule, s_) in witnesses.items():
-        got = impl_ts.get((rule, s_)) or norm(runner([{"op": "rename", "rule": rule, "s": s_}])[0], "typeshare")
-        want = impl_serde.get((pos, rule, s_)) or norm(runner([{"op": "serde", "pos": pos, "rule": rule, "s": s_}])[0], "serde")
-        if got != want:
-            check.known(kid, {"position": pos, "rule": rule, "ident": s_, "typeshare": got, "serde": want})
+    for kid, ws in witnesses.items():
+        for pos, rule, s_ in ws:
+            got = impl_ts.get((rule, s_)) or norm(runner([{"op": "rename", "rule": rule, "s": s_}])[0], "typeshare")
+            want = impl_serde.get((pos, rule, s_)) or norm(runner([{"op": "serde", "pos": pos, "rule": rule, "s": s_}])[0], "serde")
+            if kid == "allcaps-special-case" and not rust_all_uppercase(s_, facts):
+                raise InfraError("the stored witness %r of allcaps-special-case has a lower-case letter: it is not in the class" % s_)
+            if got != want:
+                check.known(kid, {"position": pos, "rule": rule, "ident": s_, "typeshare": got, "serde": want})
     # --- repaired classes: their stored witnesses must give serde's name now; a difference means the defect has returned
     repaired = {
         "unicode-case-mapping": ("7d1c05f", [("variant", "lowercase", "É"), ("variant", "lowercase", "Éclair"),
                                              ("variant", "UPPERCASE", "MyÉnum"), ("field", "UPPERCASE", "éclair"),
                                              ("field", "UPPERCASE", "straße"), ("variant", "UPPERCASE", "ǅ")]),
+        # "all uppercase" was `to_ascii_uppercase() == name`: every name without an *ASCII* lower-case letter
+        "ascii-allcaps-test-on-unicode-names": ("8f4a2d5", [("variant", r, w) for w in ALLCAPS_REPAIRED_IDENTS
+                                                            for r in ("snake_case", "PascalCase", "SCREAMING_SNAKE_CASE", "kebab-case",
+                                                                      "SCREAMING-KEBAB-CASE")]),
     }
     for kid, (commit, ws) in repaired.items():
         for pos, rule, s_ in ws:
@@ -435,7 +459,8 @@ def backend_unicode_part(check):
     tagged enum (unit / tuple / struct variants); through all six generators, with a date field for the languages that bind the key of
     one a second time.  Demanded: the key each generated declaration binds - C01's / C02's extractors, every string literal read by the
     rules of the language it is written in - is serde_derive's name for that identifier (vendored case.rs through the runner).  In
-    scope: fields without an upper-case letter, UpperCamelCase variants that are not all-capitals in ASCII; an identifier outside
+    scope: fields without an upper-case letter, UpperCamelCase variants that are not all capitals (no lower-case letter of any
+    script: typeshare's own test since the fix 8f4a2d5; before it "no ASCII lower-case letter"); an identifier outside
     (an upper-case letter in a field) is judged under the rules where typeshare's function agrees with serde's; where serde_derive
     itself fails (camelCase on a non-ASCII initial) there is no name to agree with.  The letter files also go through the model
     (byte-exact)."""
@@ -453,8 +478,10 @@ def backend_unicode_part(check):
         return not any(upper(ch) for ch in s)
 
     def variant_scope(s):
+        # not all capitals = a lower-case letter of any script (char::is_lowercase from the runner's table), or no capital after
+        # the first letter
         lower0 = s[0].islower() if ord(s[0]) < 128 else bool(facts[s[0]][2])
-        return "_" not in s and not lower0 and (bool(re.search(r"[a-z]", s)) or not any(upper(ch) for ch in s[1:]))
+        return "_" not in s and not lower0 and (not rust_all_uppercase(s, facts) or not any(upper(ch) for ch in s[1:]))
 
     def field_ident(rule, special, used):
         """1-3 words, at least one from `special`; under camelCase the first letter is ASCII (serde_derive slices one byte off)"""
